@@ -1,5 +1,222 @@
 import XsVerif.Driver.Util
-open Lean XsVerif.Driver
+import XsVerif.Model.Datatypes
+import XsVerif.Model.DatatypesDate
+import XsVerif.Generated.Builtins
+open Lean XsVerif.Driver XsVerif.Datatypes
 
--- stub: replaced when the model of C02 lands
-def main : IO Unit := XsVerif.Driver.run fun _ => .error "C02 driver not implemented"
+namespace XsVerif.Driver.C02
+
+def strOf (j : Json) : Except String Str := do return (← j.getStr?).toList
+def getS (j : Json) (k : String) : Except String Str := do return (← getStr j k).toList
+
+def parseIntS (s : String) : Except String Int :=
+  match s.toInt? with
+  | some i => pure i
+  | none => throw s!"int {s}"
+
+def parseWs (s : String) : Except String WsMode :=
+  match s with
+  | "preserve" => pure .preserve | "replace" => pure .replace | "collapse" => pure .collapse
+  | _ => throw s!"ws {s}"
+
+def parseKind (s : String) : Except String DtKind :=
+  match s with
+  | "dateTime" => pure .dateTime | "date" => pure .date | "time" => pure .time
+  | "gYear" => pure .gYear | "gYearMonth" => pure .gYearMonth | "gMonth" => pure .gMonth
+  | "gMonthDay" => pure .gMonthDay | "gDay" => pure .gDay
+  | _ => throw s!"kind {s}"
+
+def kindStr : DtKind → String
+  | .dateTime => "dateTime" | .date => "date" | .time => "time" | .gYear => "gYear"
+  | .gYearMonth => "gYearMonth" | .gMonth => "gMonth" | .gMonthDay => "gMonthDay" | .gDay => "gDay"
+
+def parseAVal (j : Json) : Except String AVal := do
+  if let .ok v := j.getObjVal? "s" then return .str (← strOf v)
+  if let .ok v := j.getObjVal? "b" then return .bool (← v.getBool?)
+  if let .ok v := j.getObjVal? "i" then return .int (← parseIntS (← v.getStr?))
+  if let .ok v := j.getObjVal? "d" then
+    let a ← v.getArr?
+    if h : a.size = 3 then
+      let c ← parseIntS (← a[1].getStr?)
+      return .dec ⟨← a[0].getBool?, c.toNat, ← a[2].getNat?⟩
+    else throw "dec"
+  if let .ok v := j.getObjVal? "f" then return .flt (← strOf v)
+  if let .ok v := j.getObjVal? "x" then return .hex (← strOf v)
+  if let .ok v := j.getObjVal? "y" then return .b64 (← strOf v)
+  if let .ok v := j.getObjVal? "dt" then
+    let a ← v.getArr?
+    if h : a.size = 9 then
+      let tz ← match a[8] with
+        | .null => pure none
+        | t => do pure (some (← t.getInt?))
+      return .dt ⟨← parseKind (← a[0].getStr?), ← parseIntS (← a[1].getStr?), ← a[2].getNat?,
+        ← a[3].getNat?, ← a[4].getNat?, ← a[5].getNat?, ← a[6].getNat?, ← a[7].getNat?, tz⟩
+    else throw "dt"
+  if let .ok v := j.getObjVal? "dur" then
+    let a ← v.getArr?
+    if h : a.size = 2 then
+      return .dur ⟨← parseIntS (← a[0].getStr?), ← parseIntS (← a[1].getStr?)⟩
+    else throw "dur"
+  throw s!"aval {j.compress}"
+
+def parseVal (j : Json) : Except String Val := do
+  match j with
+  | .null => return .none
+  | _ =>
+    if let .ok v := j.getObjVal? "l" then
+      let a ← v.getArr?
+      let items ← a.toList.mapM fun x => match x with
+        | .null => pure none
+        | x => do pure (some (← parseAVal x))
+      return .list items
+    return .atom (← parseAVal j)
+
+def parseFacet (j : Json) : Except String Facet := do
+  let f ← getStr j "f"
+  match f with
+  | "length" => return .length (← getNat j "n")
+  | "minLength" => return .minLength (← getNat j "n")
+  | "maxLength" => return .maxLength (← getNat j "n")
+  | "totalDigits" => return .totalDigits (← getNat j "n")
+  | "fractionDigits" => return .fractionDigits (← getNat j "n")
+  | "minInclusive" => return .minInclusive (← parseAVal (← j.getObjVal? "v"))
+  | "minExclusive" => return .minExclusive (← parseAVal (← j.getObjVal? "v"))
+  | "maxInclusive" => return .maxInclusive (← parseAVal (← j.getObjVal? "v"))
+  | "maxExclusive" => return .maxExclusive (← parseAVal (← j.getObjVal? "v"))
+  | "enumeration" => return .enumeration (← (← getArr j "vs").toList.mapM parseVal)
+  | "explicitTimezone" =>
+    match (← getStr j "r") with
+    | "required" => return .explicitTimezone .required
+    | "prohibited" => return .explicitTimezone .prohibited
+    | _ => return .explicitTimezone .optional
+  | "skip" => return .skip
+  | _ => throw s!"facet {f}"
+
+def parseFn (s : String) : Except String FnV :=
+  match s with
+  | "byte_validator" => pure .byte | "short_validator" => pure .short
+  | "int_validator" => pure .int | "long_validator" => pure .long
+  | "unsigned_byte_validator" => pure .ubyte | "unsigned_short_validator" => pure .ushort
+  | "unsigned_int_validator" => pure .uint | "unsigned_long_validator" => pure .ulong
+  | "negative_int_validator" => pure .negative | "positive_int_validator" => pure .positive
+  | "non_positive_int_validator" => pure .nonPositive
+  | "non_negative_int_validator" => pure .nonNegative
+  | "decimal_validator" => pure .decimal
+  | "hex_binary_validator" => pure .hexBinary | "base64_binary_validator" => pure .base64Binary
+  | "error_type_validator" => pure .error
+  | _ => throw s!"fn {s}"
+
+def parsePrim (s : String) (v11 : Bool) : Except String Prim :=
+  match s with
+  | "string" => pure .string | "boolean" => pure .boolean | "decimal" => pure .decimal
+  | "integer" => pure .integer | "float" => pure .float | "hexBinary" => pure .hexBinary
+  | "base64Binary" => pure .base64Binary | "duration" => pure .duration
+  | "dayTimeDuration" => pure .dayTimeDuration | "yearMonthDuration" => pure .yearMonthDuration
+  | "error" => pure .error
+  | _ => if s.startsWith "dt:" then do pure (.dt (← parseKind (s.drop 3).toString) v11) else throw s!"prim {s}"
+
+def optNat (j : Json) (k : String) : Except String (Option Nat) :=
+  match j.getObjVal? k with
+  | .ok .null => pure none
+  | .ok v => do pure (some (← v.getNat?))
+  | .error _ => pure none
+
+partial def parseType (j : Json) : Except String SType := do
+  let k ← getStr j "k"
+  match k with
+  | "b" =>
+    let fn ← match j.getObjVal? "fn" with
+      | .ok (.str s) => do pure (some (← parseFn s))
+      | _ => pure none
+    let facets ← (← getArr j "facets").toList.mapM parseFacet
+    return .builtin { prim := ← parsePrim (← getStr j "prim") (← getBool j "v11"),
+                      ws := ← parseWs (← getStr j "ws"), pat := ← optNat j "pat", fn, facets }
+  | "r" =>
+    let facets ← (← getArr j "facets").toList.mapM parseFacet
+    return .restr (← parseType (← j.getObjVal? "base")) (← parseWs (← getStr j "ws"))
+      (← optNat j "pat") facets
+  | "l" => return .list (← parseType (← j.getObjVal? "item"))
+  | "u" =>
+    let ms ← (← getArr j "members").toList.mapM parseType
+    return .union (STypes.ofList ms)
+  | _ => throw s!"type {k}"
+
+/-! rendering -/
+
+def sJson (s : Str) : Json := Json.str (String.ofList s)
+
+def avalJson : AVal → Json
+  | .str s => Json.mkObj [("s", sJson s)]
+  | .bool b => Json.mkObj [("b", b)]
+  | .int i => Json.mkObj [("i", Json.str (toString i))]
+  | .dec d => Json.mkObj [("d", Json.arr #[d.neg, Json.str (toString d.coef), d.scale])]
+  | .flt s => Json.mkObj [("f", sJson s)]
+  | .hex s => Json.mkObj [("x", sJson s)]
+  | .b64 s => Json.mkObj [("y", sJson s)]
+  | .dt v => Json.mkObj [("dt", Json.arr #[kindStr v.kind, Json.str (toString v.year), v.month, v.day,
+      v.hour, v.minute, v.second, v.micro, match v.tz with | none => Json.null | some t => Json.num (JsonNumber.fromInt t)])]
+  | .dur v => Json.mkObj [("dur", Json.arr #[Json.str (toString v.months), Json.str (toString v.micros)])]
+
+def valJson : Val → Json
+  | .none => Json.null
+  | .atom a => avalJson a
+  | .list l => Json.mkObj [("l", Json.arr (l.map fun | none => Json.null | some a => avalJson a).toArray)]
+
+def errStr : Err → String
+  | .decode => "decode" | .validation => "validation" | .oracleMiss => "oracle-miss"
+  | .unsupported => "unsupported"
+
+/-- text of `str(Decimal)` -/
+def reprStr (neg : Bool) : DecRepr → Str
+  | .plain ds => (if neg then ['-'] else []) ++ ds
+  | .point ip fp => (if neg then ['-'] else []) ++ ip ++ ['.'] ++ fp
+  | .sci d r e => (if neg then ['-'] else []) ++ [d] ++ (if r.isEmpty then [] else '.' :: r) ++
+      "E-".toList ++ natDigits e
+
+/-- `from_python` of the built-in for the value decoded (int / boolean / decimal) -/
+def encJson : Val → Json
+  | .atom (.int i) => sJson (intToStr i)
+  | .atom (.bool b) => Json.str (if b then "true" else "false")
+  | .atom (.dec d) => sJson (reprStr d.neg (decRepr (natDigits d.coef) d.scale))
+  | _ => Json.null
+
+def digitsJson (fix : Bool) : Val → Json
+  | v => match v.digits? fix with
+    | some (a, b) => Json.arr #[a, b]
+    | none => Json.null
+
+def conv (P : Nat → Str → Option Bool) : Conv where
+  dt := parseDt
+  dur := parseDur
+  hex := hexOk
+  b64 := parseB64
+  fltOk := fun t => (P 0 t).getD false   -- Python float(): oracle id 0 (see harness)
+  bool := lookupBool XsVerif.Generated.booleanMap
+
+def handle (j : Json) : Except String Json := do
+  let W := if (← getStr j "wsclass") == "py" then isPyWs else isXmlWs
+  let v11 ← getBool j "v11"
+  let pats ← (← getArr j "pats").toList.mapM fun e => do
+    let a ← e.getArr?
+    if h : a.size = 3 then pure ((← a[0].getNat?), (← strOf a[1]), (← a[2].getBool?))
+    else throw "pat"
+  let P : Nat → Str → Option Bool := fun id t =>
+    (pats.find? fun e => e.1 == id && e.2.1 == t).map (·.2.2)
+  let cdFix ← getBool j "cdfix"
+  let E : Env := { W, cdFix, P, dtCmp := dtCompare v11,
+                   durLtLe := fun _ _ => none }
+  let ty ← parseType (← j.getObjVal? "type")
+  let text ← getS j "text"
+  let r := decode E (conv P) ty text
+  return Json.mkObj [
+    ("val", valJson r.val),
+    ("errs", Json.arr (r.errs.map fun e => Json.str (errStr e)).toArray),
+    ("enc", encJson r.val),
+    ("digits", digitsJson cdFix r.val),
+    ("collapse", sJson (wsCollapse W text)),
+    ("replace", sJson (wsReplace W text)),
+    ("words", Json.arr ((words W text).map sJson).toArray)]
+
+end XsVerif.Driver.C02
+
+def main : IO Unit := XsVerif.Driver.run XsVerif.Driver.C02.handle
